@@ -953,10 +953,14 @@ class Stack(list):
         return True
 
     def op_pick(self):
+        if not self.is_arithmetic(1):
+            return False
         self.append(self[-self.pop_as_number()])
         return True
 
     def op_roll(self):
+        if not self.is_arithmetic(1):
+            return False
         self.append(self.pop(-self.pop_as_number()))
         return True
 
